@@ -42,7 +42,6 @@ from __future__ import annotations
 __docformat__ = 'epytext en'
 
 from typing import Iterable, List, Optional, Sequence, Set, cast
-import re
 from docutils import nodes
 
 from docutils.core import publish_string
@@ -93,12 +92,6 @@ def parse_docstring(docstring: str,
     """
     writer = _DocumentPseudoWriter()
     reader = _EpydocReader(errors) # Outputs errors to the list.
-
-    # Credits: mhils - Maximilian Hils from the pdoc repository https://github.com/mitmproxy/pdoc
-    # Strip Sphinx interpreted text roles for code references: :obj:`foo` -> `foo`
-    docstring = re.sub(
-        r"(:py)?:(mod|func|data|const|class|meth|attr|exc|obj):", "", docstring
-    )
 
     # The ".. role::" directive registers the new role in a table that is global to the process:
     # restore it, such that a docstring can't change the way the next ones are parsed.
@@ -507,6 +500,14 @@ class DocutilsAndSphinxCodeBlockAdapter(PythonCodeDirective):
                 'emphasize-lines': directives.unchanged_required,
                 'caption': directives.unchanged_required,
     }
+
+# Sphinx interpreted text roles for code references are handled like the default role: :obj:`foo` -> `foo`.
+# They are declared to the parser rather than stripped from the source text, such that text that only
+# looks like a role (in literal blocks, doctest blocks, code blocks, directive options...) is left alone.
+for _role in ('mod', 'func', 'data', 'const', 'class', 'meth', 'attr', 'exc', 'obj'):
+    for _name in (_role, f'py:{_role}'):
+        roles.register_local_role(_name, roles.GenericRole(_name, nodes.title_reference))
+del _role, _name
 
 directives.register_directive('python', PythonCodeDirective)
 directives.register_directive('code', DocutilsAndSphinxCodeBlockAdapter)
